@@ -128,14 +128,13 @@ Proof.
   - destruct (step s l) as [s1|] eqn:E; [|discriminate]. apply (IH s1 s'); eauto.
 Qed.
 
-(* the form used in Props: honest + body_errors_fatal imply env_ok *)
-Lemma env_ok_of s ls : honest s ls -> body_errors_fatal ls -> env_ok s ls.
+(* the form used in Props: honest is env_ok *)
+Lemma env_ok_of s ls : honest s ls -> env_ok s ls.
 Proof.
-  revert s; induction ls as [|l ls IH]; intros s Hh Hb; cbn in *; [exact I|].
+  revert s; induction ls as [|l ls IH]; intros s Hh; cbn in *; [exact I|].
   destruct Hh as [Hl Hh]. split.
-  - destruct l; auto. cbn. apply (Hb net resid). left; reflexivity.
-  - destruct (step s l); auto. apply IH; auto.
-    intros net resid Hin. apply (Hb net resid). right; exact Hin.
+  - destruct l; auto.
+  - destruct (step s l); auto.
 Qed.
 
 (* ---- boolean checkers for the environment hypotheses (used by the non-vacuity examples) -------------- *)
@@ -161,18 +160,6 @@ Proof.
   apply andb_true_iff in H. destruct H as [H1 H2]. split.
   - destruct l; auto. apply mem2p_In; exact H1.
   - destruct (step s l); auto.
-Qed.
-
-Definition fatalb (ls : list label) : bool :=
-  forallb (fun l => match l with
-                    | RecvBodyErr net resid => net || match resid with [] => true | _ => false end
-                    | _ => true
-                    end) ls.
-
-Lemma fatalb_sound ls : fatalb ls = true -> body_errors_fatal ls.
-Proof.
-  unfold fatalb, body_errors_fatal. rewrite forallb_forall. intros H net resid Hin.
-  specialize (H _ Hin). cbn in H. destruct net; [left; reflexivity|]. destruct resid; [right; reflexivity|discriminate].
 Qed.
 
 (* ---- case analysis over a step ------------------------------------------------------------------- *)
